@@ -249,6 +249,17 @@ func runNagaCasesMSL(t *testing.T, cases []nagaCase, defects mslDefects) {
 						}
 					}
 					switch {
+					case strings.HasPrefix(problem, "parse: unsupported") && mslUnsupportedOK[c.name] != "" && strings.Contains(problem, mslUnsupportedOK[c.name]):
+						if !rev {
+							t.Logf("[%s] not modelled (counted, never a violation): %s", mc.name, problem)
+						}
+					case !mc.opts.ZeroInitializeWorkgroupMemory && strings.HasPrefix(problem, "poison:") && strings.Contains(problem, "threadgroup memory that was never written") && wantDefect == "":
+						// without ZeroInitializeWorkgroupMemory naga intentionally
+						// leaves workgroup memory uninitialised: the option changes
+						// the meaning, the interpreter must notice the reads
+						if !rev {
+							t.Logf("[%s] workgroup memory is read uninitialised, as the options say", mc.name)
+						}
 					case wantDefect != "":
 						if !strings.Contains(problem, wantDefect) {
 							t.Errorf("[%s rev=%v] expected the known defect %q, got %q\n%s", mc.name, rev, wantDefect, problem, numbered(txt))
@@ -256,11 +267,22 @@ func runNagaCasesMSL(t *testing.T, cases []nagaCase, defects mslDefects) {
 							t.Logf("[%s] suspected naga defect still present: %s", mc.name, problem)
 						}
 					case problem != "":
-						t.Errorf("[%s rev=%v] %s\n%s", mc.name, rev, problem, numbered(txt))
-						return
+						if rev {
+							t.Errorf("[%s rev=%v] %s", mc.name, rev, problem)
+						} else {
+							t.Errorf("[%s rev=%v] %s\n%s", mc.name, rev, problem, numbered(txt))
+						}
 					}
 				}
 			}
 		})
 	}
+}
+
+// mslUnsupportedOK: cases whose MSL text uses a construct this front end
+// deliberately does not judge (case name -> substring of the UnsupportedError).
+var mslUnsupportedOK = map[string]string{
+	// metal::all / metal::any of a scalar bool: the specification lists the
+	// vector forms; whether the scalar overloads exist is not certain
+	"all and any of a scalar bool": "metal::all(bool)",
 }
